@@ -16,6 +16,7 @@ import Relic.Driver.C13
 import Relic.Driver.C19
 import Relic.Driver.C17
 import Relic.Driver.C14
+import Relic.Driver.C11
 open Relic
 
 def dispatch (line : String) : String :=
@@ -37,6 +38,11 @@ def dispatch (line : String) : String :=
   | "C19" :: rest => Relic.Driver.C19.handle rest
   | "C17" :: rest => Relic.Driver.C17.handle rest
   | "C14" :: rest => Relic.Driver.C14.handle rest
+  | "C11" :: rest => Relic.Driver.C11.handle rest
+  | "APKBLK" :: rest => Relic.Driver.C11.handleApk rest
+  | "CSBLOB" :: rest => Relic.Driver.C11.handleCs rest
+  | "XAPSIG" :: rest => Relic.Driver.C11.handleXap rest
+  | "BINLOAD" :: rest => Relic.Driver.C11.handleBin rest
   | _ => "bad-op"
 
 partial def loop (h : IO.FS.Stream) (out : IO.FS.Stream) : IO Unit := do
